@@ -112,6 +112,8 @@ def geom(case, comp, pos):
         return val, 0.0, reg
     ids = comp["ids"]
     N = len(ids)
+    if comp.get("rotate"):        # optimal rotation: not recomputed here (search-only residue, used at temperature 0)
+        return float("nan"), 0.0, 1.0
     fp = frame(pos, comp)
     if k == "gyration":
         x = math.sqrt(sum(vdot(p, p) for p in fp) / N)
@@ -138,6 +140,8 @@ def doc_value(case, pos):
 
 def doc_fj(case, pos):
     """the documented Jacobian force: kT * sum_i c_i jd_i / sum_i c_i^2"""
+    if case["T"] == 0.0:
+        return 0.0
     s = 0.0
     for c in case["comps"]:
         s += geom(case, c, pos)[1] * c["coeff"] / sqnorm(case)
@@ -200,7 +204,9 @@ def comp_block(comp, single):
         L += group_block("atoms", {"ids": comp["ids"]})
     else:
         extra = ["centerToReference %s" % ("on" if comp.get("center") else "off"), "rotateToReference off"]
-        if comp.get("center"):
+        if comp.get("rotate"):
+            extra = []          # the default: centre and rotate onto the component's reference positions
+        elif comp.get("center"):
             extra.append("refPositions " + " ".join(vtxt(v) for v in comp["gref"]))
         L += group_block("atoms", {"ids": comp["ids"]}, extra)
         L.append("    refPositions " + " ".join(vtxt(v) for v in comp["refs"]))
@@ -556,6 +562,33 @@ def gen_case(r, idx, typ=None, kinds=None):
     return case
 
 
+def rot_case(r, kind):
+    """rmsd / eigenvector in the optimally rotated frame (the default fit), temperature 0: inverse oracle only (no model)"""
+    c = None
+    while c is None:
+        c = gen_case(r, 0, "INV", [kind])
+    cc = c["comps"][0]
+    n = c["n"]
+    k = min(n, r.randint(4, 6))
+    cc["ids"] = list(range(1, k + 1))
+    cc["refs"] = [rpos(r) for _ in range(k)]
+    cc["center"], cc["rotate"] = False, True
+    cc.pop("gref", None)
+    if kind == "eigenvector":
+        cc["evec"] = [[V.dyadic(r, -2, 2, bits=3) for _ in range(3)] for _ in range(k)]
+    c.update({"type": "ROT", "T": 0.0, "invok": True, "hide": False})
+    if c["bias"]["type"] == "harmonic":
+        c["bias"] = {"type": "linear", "k": V.dyadic(r, 1, 4, bits=2)}
+    z = [[0.0, 0.0, 0.0] for _ in range(n)]
+    P = [[vadd(cc["refs"][a] if a < k else rpos(r), [V.dyadic(r, -1, 1, bits=4) for _ in range(3)]) for a in range(n)] for _ in range(2)]
+    if c["same"]:
+        c["steps"] = [{"pos": P[0], "ef": z}, {"pos": P[0], "ef": {"back": 1.0}}, {"pos": P[1], "ef": z}, {"pos": P[1], "ef": {"back": 1.0}}]
+    else:
+        c["inc"] = 1
+        c["steps"] = [{"pos": P[0], "ef": z}, {"pos": P[1], "ef": z}, {"pos": P[0], "ef": z}]
+    return c
+
+
 def zero_total_case(r):
     """lagged forces, subtractAppliedForce, temperature 0: the engine force cancels the applied force exactly, so the
     measured total force is exactly zero and the reported one must be minus the applied force"""
@@ -744,7 +777,7 @@ class Runner:
 
 def process(run, runner, cases, sample=0):
     impl, crashed = runner.impl(cases)
-    mods = runner.models(cases, impl)
+    mods = runner.models([c if c["type"] != "ROT" else dict(c, steps=[]) for c in cases], impl)
     for k, c in enumerate(cases):
         kd = kinds_of(c)
         mode = "samestep" if c["same"] else "lagged"
@@ -765,10 +798,12 @@ def process(run, runner, cases, sample=0):
             run.mismatch("config:%s" % kd, {"case": c}, [cs["config"]] + [s["err"] for s in cs["steps"]], "accepted, all steps ok")
             continue
         isteps = cs["steps"]
-        nontriv = c.get("invok", False) and any(delivered_is_own(c, t) is not None for t in range(len(isteps))) or c["type"] in ("LIN", "LOC", "TIM", "ZERO")
+        nontriv = c.get("invok", False) and any(delivered_is_own(c, t) is not None for t in range(len(isteps))) or c["type"] in ("LIN", "LOC", "TIM", "ZERO", "ROT")
         run.count(json.dumps(c, sort_keys=True), bool(nontriv) and any(s["tf"].get("v") not in (None, 0.0) for s in isteps))
         for sig, text in oracle(c, isteps):
             run.violation(sig, text, rp)
+        if c["type"] == "ROT":
+            continue
         ml, ms = mods.get(k, (None, None))
         bad = compare(c, isteps, ms)
         if bad:
@@ -859,6 +894,8 @@ def check(run):
             while c is None or not c["comps"][0].get("onesite") or c["same"] != same:
                 c = gen_case(r, 0, "LOC", [kind])
             first.append(c)
+    for i in range(8 if quick else 400):          # rotated frames: search only
+        first.append(rot_case(r, "rmsd" if i % 2 == 0 else "eigenvector"))
     n = 420 if quick else 12000
     cases = list(first)
     target = len(first) + n
